@@ -160,6 +160,15 @@ func runC15(o *Out, rng *Rng, tier string, replay string) {
 		}
 	}
 	special = append(special, hugeWindows...)
+	// every permitted thread setting lives a few days in which the daily update rewrites traveller records
+	for _, th := range []byte{0, 1, 2, 4, 8, 16} {
+		for _, a := range []byte{1, 2} {
+			p := base
+			p.Threads = th
+			p.Promises.Algo = flap.PromisesAlgo(a)
+			special = append(special, p)
+		}
+	}
 	for k := 0; k < nLives+len(special); k++ {
 		r := rng.Fork()
 		p := okSets[r.Intn(len(okSets))]
